@@ -42,6 +42,7 @@ impl Rep {
 pub fn run(obligation: &str) -> i32 {
     let mut rep = Rep::new();
     std::panic::set_hook(Box::new(|_| {}));   // panics of the code under contract are reported as outcomes, not printed
+    if obligation.starts_with("C02.type_table") { gen_type_table(&mut rep); return rep.finish("GEN_type_table"); }
     if ["C02.format_member_or_option", "C02.format_sequence_member", "C02.format_choice_option", "C02.boxed_type"].iter().any(|p| obligation.starts_with(p)) { gen_members(&mut rep); return rep.finish("GEN_members"); }
     if obligation.starts_with("C14.format_enum_members") || obligation.starts_with("C05.format_enum_members") { gen_enum_members(&mut rep); return rep.finish("GEN_enum_members"); }
     if ["C05.generate_", "C03.generate_", "C05.member_extension", "C05.option_extension", "C02.generate_sequence_or_set_set_annotation", "C02.sequence_or_set_of_template"].iter().any(|p| obligation.starts_with(p)) { gen_blocks(&mut rep); gen_collections(&mut rep); return rep.finish("GEN_blocks"); }
@@ -124,6 +125,62 @@ fn gen_emission(rep: &mut Rep) {
             };
             rep.check("C04.format_range_annotations.prefix_both_ends_and_extensible_exactly_as_folded", nows(text) == want, d);
         }
+    } }
+}
+
+/// Native replay of unit GEN_type_table: Rasn::constraints_and_type_name on the real crate against the table of C02, element types
+/// nested to depth 3, recursive or not.
+fn gen_type_table(rep: &mut Rep) {
+    use rasn_compiler::verif_hooks::{hook_inner_name, hook_type_table};
+    let nows = |s: &str| s.chars().filter(|c| !c.is_whitespace()).collect::<String>();
+    let boolean = || ASN1Type::Boolean(Boolean { constraints: vec![] });
+    let range = |lo: i128, hi: i128| Constraint::Subtype(ElementSetSpecs { set: ElementOrSetOperation::Element(SubtypeElements::ValueRange { min: Some(ASN1Value::Integer(lo)), max: Some(ASN1Value::Integer(hi)), extensible: false }), extensible: false });
+    let member = || SequenceOrSetMember { name: "x".into(), tag: None, ty: boolean(), optionality: Optionality::Required, is_recursive: false, constraints: vec![] };
+    // (type, text, expected Rust type for rec = false; `@INNER@` = hoisted name, boxed when recursive; `@REF@` = boxed when recursive)
+    let leaves: Vec<(ASN1Type, &str, String)> = vec![
+        (ASN1Type::Null, "NULL", "()".into()), (boolean(), "BOOLEAN", "bool".into()),
+        (ASN1Type::Integer(Integer { constraints: vec![], distinguished_values: None }), "INTEGER", "Integer".into()),
+        (ASN1Type::Integer(Integer { constraints: vec![range(0, 255)], distinguished_values: None }), "INTEGER (0..255)", "u8".into()),
+        (ASN1Type::Integer(Integer { constraints: vec![range(-1, 70000)], distinguished_values: None }), "INTEGER (-1..70000)", "i32".into()),
+        (ASN1Type::Real(Real { constraints: vec![] }), "REAL", "f64".into()),
+        (ASN1Type::ObjectIdentifier(ObjectIdentifier { constraints: vec![] }), "OBJECT IDENTIFIER", "ObjectIdentifier".into()),
+        (ASN1Type::BitString(BitString { constraints: vec![], distinguished_values: None }), "BIT STRING", "BitString".into()),
+        (ASN1Type::OctetString(OctetString { constraints: vec![] }), "OCTET STRING", "OctetString".into()),
+        (ASN1Type::GeneralizedTime(GeneralizedTime { constraints: vec![] }), "GeneralizedTime", "GeneralizedTime".into()),
+        (ASN1Type::UTCTime(UTCTime { constraints: vec![] }), "UTCTime", "UtcTime".into()),
+        (ASN1Type::CharacterString(CharacterString { constraints: vec![], ty: CharacterStringType::UTF8String }), "UTF8String", "Utf8String".into()),
+        (ASN1Type::CharacterString(CharacterString { constraints: vec![], ty: CharacterStringType::IA5String }), "IA5String", "Ia5String".into()),
+        (ASN1Type::Sequence(SequenceOrSet { components_of: vec![], extensible: None, constraints: vec![], members: vec![member()] }), "SEQUENCE { x BOOLEAN }", "@INNER@".into()),
+        (ASN1Type::Set(SequenceOrSet { components_of: vec![], extensible: None, constraints: vec![], members: vec![member()] }), "SET { x BOOLEAN }", "@INNER@".into()),
+        (ASN1Type::Choice(Choice { extensible: None, constraints: vec![], options: vec![ChoiceOption { name: "x".into(), tag: None, ty: boolean(), constraints: vec![], is_recursive: false }] }), "CHOICE { x BOOLEAN }", "@INNER@".into()),
+        (ASN1Type::Enumerated(Enumerated { members: vec![Enumeral { name: "a".into(), description: None, index: 0 }], extensible: None, constraints: vec![] }), "ENUMERATED { a }", "@INNER@".into()),
+        (ASN1Type::ElsewhereDeclaredType(DeclarationElsewhere { parent: None, module: None, identifier: "Other".into(), constraints: vec![] }), "Other", "@REF@Other".into()),
+        (ASN1Type::Any, "ANY", "Any".into()), (ASN1Type::External, "EXTERNAL", "Any".into()), (ASN1Type::EmbeddedPdv, "EMBEDDED PDV", "Any".into()),
+    ];
+    let inner = hook_inner_name("f", "Parent");
+    let fill = |pat: &str, rec: bool| -> String {
+        if pat == "@INNER@" { if rec { format!("Box<{inner}>") } else { inner.clone() } }
+        else if let Some(r) = pat.strip_prefix("@REF@") { if rec { format!("Box<{r}>") } else { r.to_string() } }
+        else { pat.to_string() }
+    };
+    for (ty, tt, pat) in &leaves { for rec in [false, true] {
+        // the type itself, and as element of 1..=3 nested collections whose own is_recursive flag is what boxes the element
+        for depth in 0..=3usize { for kinds in 0..(1usize << depth) { for elem_rec in [false, true] {
+            if depth == 0 && elem_rec { continue; }
+            let mut t = ty.clone(); let mut text = tt.to_string();
+            let mut want = fill(pat, if depth == 0 { rec } else { elem_rec });
+            for d in 0..depth {
+                let is_set = kinds >> d & 1 == 1;
+                let of = SequenceOrSetOf { constraints: vec![], element_tag: None, element_type: Box::new(t), is_recursive: d == 0 && elem_rec };
+                t = if is_set { ASN1Type::SetOf(of) } else { ASN1Type::SequenceOf(of) };
+                text = format!("{} OF {text}", if is_set { "SET" } else { "SEQUENCE" });
+                want = format!("{}<{want}>", if is_set { "SetOf" } else { "SequenceOf" });
+            }
+            let got = hook_type_table(&t, "f", "Parent", rec);
+            let d = || format!("component `f {text}` in Parent, member_recursive={rec} element_recursive={elem_rec} -> {}", match &got { Ok(g) => nows(g), Err(e) => format!("ERR {e}") });
+            rep.check("C02.type_table.fails_only_for_TIME_or_when_a_callee_fails", got.is_ok(), d);
+            if let Ok(g) = &got { rep.check("C02.type_table.rust_type_of_every_asn1_type_elements_recursively_boxed_when_recursive", nows(g) == want, d); }
+        } } }
     } }
 }
 
